@@ -237,23 +237,41 @@ def observe(outs, objs):
     return ["ok", res]
 
 
+class _Crit(object):
+    """the criteria as the caller may hand them over: a list, a tuple, or a one-shot iterator / generator (made afresh for
+    every call)"""
+    def __init__(self, cs, form):
+        self.cs, self.form = list(cs), form
+
+    def arg(self):
+        if self.form == 0:
+            return list(self.cs)
+        if self.form == 1:
+            return tuple(self.cs)
+        if self.form == 2:
+            return iter(list(self.cs))
+        return (x for x in list(self.cs))
+
+
 def run_impl(c):
+    import zlib
+    form = zlib.crc32(repr(sorted(c.items(), key=repr)).encode("utf-8", "replace")) % 4
     if c["k"] == "merge":
         db = build_db(c["feats"], anon=c.get("anon", False))
         objs = [db[f["id"]] for f in c["feats"]]
         before = [str(x) for x in objs]
         a0 = sorted([k, v] for k, v in db._autoincrements.items())
-        crit = py_criteria(c["crit"])
+        crit_ = _Crit(py_criteria(c["crit"]), form)
         out = {"a0": a0}
         for idx in c.get("pre", []):
             try:
-                list(db.merge([objs[i] for i in idx], merge_criteria=crit))
+                list(db.merge([objs[i] for i in idx], merge_criteria=crit_.arg()))
             except Exception:
                 pass
         last = []
         for tag in ("first", "second"):
             try:
-                last = list(db.merge(objs, merge_criteria=crit))
+                last = list(db.merge(objs, merge_criteria=crit_.arg()))
                 out[tag] = observe(last, objs)
             except Exception as ex:
                 out[tag] = ["err", L.err_class(ex)]
@@ -262,7 +280,7 @@ def run_impl(c):
         alone = True
         for o in last:
             try:
-                r = list(db.merge([o], merge_criteria=crit))
+                r = list(db.merge([o], merge_criteria=crit_.arg()))
                 alone = alone and len(r) == 1 and r[0] is o and not getattr(r[0], "children", ())
             except Exception:
                 alone = False
@@ -282,7 +300,7 @@ def run_impl(c):
         try:
             kwa = {}
             if c.get("order"):
-                kwa = {"merge_order": tuple(c["order"]), "merge_criteria": py_criteria(c["crit"])}
+                kwa = {"merge_order": tuple(c["order"]), "merge_criteria": _Crit(py_criteria(c["crit"]), form).arg()}
             db.merge_all(exclude_components=c["exclude"], **kwa)
             if c.get("twice"):
                 pass
@@ -293,11 +311,11 @@ def run_impl(c):
             after = ["err", L.err_class(ex)]
         return {"before": before, "mem": mem, "after": after}
     db = build_db(c["feats"], parent="P", anon=c.get("anon", False))
-    crit = py_criteria(c["crit"])
+    crit_ = _Crit(py_criteria(c["crit"]), form)
     out = {}
     for tag, m in (("plain", False), ("merged", True)):
         try:
-            out[tag] = ["ok", db.children_bp("P", child_featuretype=[f["type"] for f in c["feats"]][0], merge=m, merge_criteria=crit)]
+            out[tag] = ["ok", db.children_bp("P", child_featuretype=[f["type"] for f in c["feats"]][0], merge=m, merge_criteria=crit_.arg())]
         except Exception as ex:
             out[tag] = ["err", L.err_class(ex)]
     return out
